@@ -291,7 +291,9 @@ def m_con(ev, D, vars_):
 
 DET_FUNCS = {"MaxConstraint", "MinConstraint", "AbsConstraint", "AndConstraint", "OrConstraint", "NotConstraint",
              "IfThenConstraint", "ImplicationConstraint", "AllDiffConstraint", "NumberofConstConstraint",
-             "NumberofVarConstraint", "CountConstraint", "PowConstraint"}
+             "NumberofVarConstraint", "CountConstraint", "PowConstraint",
+             # determined too, but the value may be off the grid (then no value: FlatSem!FuncValSet)
+             "PLConstraint", "DivConstraint"}
 
 
 def delivered_record(rec, D, n0):
